@@ -525,7 +525,7 @@ macro_rules! union_enum {
             }
             fn gen(g: &mut $crate::rng::Rng, size: usize) -> Self {
                 let n = [$($i),+].len();
-                let k = g.below(n);
+                let k = match g.below(5) { 0 => 0, 1 => n - 1, _ => g.below(n) };
                 $(if k == $i { return $name::$v(<$t as $crate::model::Model>::gen(g, size)); })+
                 unreachable!()
             }
@@ -559,7 +559,7 @@ macro_rules! transparent_enum {
             }
             fn gen(g: &mut $crate::rng::Rng, size: usize) -> Self {
                 let n = [$($i),+].len();
-                let k = g.below(n);
+                let k = match g.below(5) { 0 => 0, 1 => n - 1, _ => g.below(n) };
                 $(if k == $i { return $name::$v(<$t as $crate::model::Model>::gen(g, size)); })+
                 unreachable!()
             }
@@ -583,7 +583,7 @@ macro_rules! tag_enum {
             }
             fn gen(g: &mut $crate::rng::Rng, _size: usize) -> Self {
                 let n = [$($i),+].len();
-                let k = g.below(n);
+                let k = match g.below(5) { 0 => 0, 1 => n - 1, _ => g.below(n) };
                 $(if k == $i { return $name::$v; })+
                 unreachable!()
             }
